@@ -1168,6 +1168,11 @@ def c07(rep, tier):
                 'the PROGRAM header keeps a breakpoint site: stepping would stop on definitions', W(m, dvd, dpc[0].e))
     else:
         D.unknown('dispatchVoid', 'dispatchProgram call not unique')
+    G7 = rep.rule('C07.g', 'advanceLine creates a site exactly when generation moves to another line or another file (except the hidden file), '
+                           'after updating the current location to it', floor=3)
+    advance_line_semantics(G7, m, rep)
+    H7 = rep.rule('C07.h', 'the variable view reports every entry of the activation\'s stack map with the word at data_start + register', floor=1)
+    variable_view_rule(H7, rep)
     E = rep.rule('C07.e', 'END keywords of LOOP, WHILE and PROGRAM are kept as marks so that their line gets a site', floor=3)
     pf = Facts(['Compiler/src/parse.cpp'])
     rep.note_facts(pf)
@@ -1349,6 +1354,33 @@ def c20_gen(rep, tier):
                         A3.ok(inst, '%ssilent re-read %s of a token already range-checked on this path (C20.A2 exception)' % ('negated ' if neg else '', o['callee']), W(g, f, e))
                     else:
                         A3.violation(inst, 'constant %s is neither a literal nor a checked conversion' % show(o), W(g, f, e))
+    # negating a converted literal must not overflow: the conversion's result range has to exclude INT_MIN.  The generator goes on
+    # after recording a range error, so "an error was recorded" does not bound the value.
+    from .symex import Symex, type_range
+    conv_ranges = {}
+    for f in g.all_fns():
+        if f['ret_c'] == 'int' and any(e.get('k') == 'call' and (e.get('callee') or '') in CONV for e in walk_all_exprs(f['body'])):
+            sx = Symex(g.facts)
+            sx.extern_ranges = {c: (0, 2 ** 63 - 1) for c in CONV}     # INT tokens are digit strings (C14): the text converts to a non-negative value
+            try:
+                ps = sx.run(f)
+                ivs = [sx.coerce(p.ret, 'int', f['body']).iv for p in ps if p.ret is not None]
+                conv_ranges[f['q']] = (min(i[0] for i in ivs), max(i[1] for i in ivs)) if ivs and all(ivs) else None
+            except AnalysisBroken:
+                conv_ranges[f['q']] = None
+    for f in g.all_fns():
+        for e in walk_all_exprs(f['body']):
+            if e.get('k') == 'un' and e['op'] == '-' and (e.get('cty') == 'int'):
+                o = g.origin(f, e['e'])
+                if o is not None and o.get('k') == 'call' and o.get('callee') in conv_ranges:
+                    rng = conv_ranges[o['callee']]
+                    inst = '%s: -%s' % (f['q'], show(e['e']))
+                    if rng is None:
+                        A3.unknown(inst, 'cannot bound the result of %s' % o['callee'])
+                    else:
+                        A3.check(rng[0] > -2147483648, inst, 'operand in [%d, %d]: the negation cannot overflow' % rng,
+                                 'the operand comes from %s whose result ranges over [%d, %d] (the generator continues after a range error): negating INT_MIN is undefined behaviour '
+                                 'inside compile()' % (o['callee'], rng[0], rng[1]), W(g, f, e), witness={'input': 'x1 := x0 - 2147483648', 'effect': 'UBSan: negation of -2147483648 cannot be represented in type int'})
     A4 = rep.rule('C20.A4', 'macro priorities and insertion indices go through the checked conversion', floor=2)
     for f in facts.functions_in('macro.cpp'):
         for e in walk_all_exprs(f['body']):
@@ -1393,3 +1425,124 @@ def silent_exception(facts, mm, f, users):
                 return True, 'the INSERTION token text was converted and index-checked in extract_macros'
         return False, 'extract_macros no longer validates insertion tokens'
     return False, 'no exception applies'
+
+
+def advance_line_semantics(R, m, rep):
+    from .symex import Symex, Val, t_show, C
+    al = m.fn('GenState::advanceLine')
+    sx = Symex(m.facts, no_inline=('GenState::breakpoint',))
+    sx.no_inline = {'GenState::breakpoint'}
+    paths = sx.run(al)
+    this = (('this',),)
+    fs_name = this + (('f', 'fs'), ('f', 'name'))
+    fs_line = this + (('f', 'fs'), ('f', 'line'))
+    pl, pf = al['params'][0]['name'], al['params'][1]['name']
+    n_emit = n_quiet = 0
+    for p in paths:
+        hidden = samefile = sameline = None
+
+        def classify(t):
+            """('hidden'|'samefile'|'sameline', positive?) for an (in)equality atom"""
+            if isinstance(t, tuple) and t[0] == 'not':
+                c = classify(t[1])
+                return (c[0], not c[1]) if c else None
+            if isinstance(t, tuple) and t[0] == 'cmp' and t[1] in ('==', '!='):
+                sides = {t[2], t[3]}
+                pos = t[1] == '=='
+                if ('param', pf) in sides and any(isinstance(x, tuple) and x[0] == 'str' for x in sides):
+                    return ('hidden', pos)
+                if ('param', pf) in sides and ('init', fs_name) in sides:
+                    return ('samefile', pos)
+                if ('param', pl) in sides and ('init', fs_line) in sides:
+                    return ('sameline', pos)
+            return None
+        known = {}
+        pending = []
+        for t, pol in p.guards:
+            c = classify(t)
+            if c:
+                known[c[0]] = (c[1] == pol)
+            elif isinstance(t, tuple) and t[0] in ('and', 'or'):
+                pending.append((t, pol))
+        for _ in range(3):
+            for t, pol in pending:
+                parts = [classify(t[1]), classify(t[2])]
+                if None in parts:
+                    continue
+                # and: false with one conjunct known true -> the other is false ; or: true with one known false -> other true
+                for i in (0, 1):
+                    me, other = parts[i], parts[1 - i]
+                    if me[0] in known:
+                        val_me = known[me[0]] == me[1]
+                        if t[0] == 'and' and not pol and val_me:
+                            known[other[0]] = not other[1]
+                        if t[0] == 'or' and pol and not val_me:
+                            known[other[0]] = other[1]
+        hidden, samefile, sameline = known.get('hidden'), known.get('samefile'), known.get('sameline')
+        calls = [ef for ef in p.effects if ef[0] == 'call' and ef[1] == 'GenState::breakpoint']
+        fn_final = p.heap.get(fs_name)
+        fl_final = p.heap.get(fs_line)
+        desc = 'hidden=%s samefile=%s sameline=%s' % (hidden, samefile, sameline)
+        where = W(m, al)
+        if hidden is True:
+            R.check(not calls and fn_final is None and fl_final is None, 'advanceLine [%s]' % desc, 'hidden file: no site, location unchanged', 'the hidden file changes the location or gets a site', where)
+            continue
+        if not calls:
+            n_quiet += 1
+            R.check(samefile is True and sameline is True, 'advanceLine [%s]: no site' % desc, 'no site only when neither the file nor the line changed',
+                    'no site is created although %s: a statement on that line is never stopped on' % (
+                        'the file may differ (the decision does not look at the file)' if samefile is None else 'the file differs' if samefile is False else 'the line differs'),
+                    where, witness={'path_guards': [(t_show(t), pol) for t, pol in p.guards]})
+            continue
+        n_emit += 1
+        okloc = (fn_final is None and samefile is True or (fn_final is not None and fn_final.term == ('param', pf))) and \
+                (fl_final is not None and fl_final.term == ('param', pl))
+        moved = samefile is False or sameline is False
+        R.check(len(calls) == 1 and okloc and moved, 'advanceLine [%s]: site' % desc, 'one site, created after the location became (file, line)',
+                'site created %d time(s) with location (%s, %s)%s' % (len(calls), t_show(fn_final.term) if fn_final else 'unchanged', t_show(fl_final.term) if fl_final else 'unchanged',
+                                                                       '' if moved else ' although nothing moved'), where)
+    if n_emit == 0:
+        R.violation('advanceLine', 'no path creates a site', W(m, al))
+
+
+def variable_view_rule(R, rep):
+    from .props_lex import enclosing_conditions
+    vf = Facts(['VM/src/vm.cpp'])
+    rep.note_facts(vf)
+    f = vf.fn('Theo::VM::Activation::getActivationVariables')
+    rep.analysed(f)
+    ok = False
+    why = 'no assignment res[name] = data[data_start + register] found'
+    for st in walk_stmts(f['body']):
+        if st['k'] != 'rangefor':
+            continue
+        rng = show(st['range'])
+        if not rng.endswith('.map') and not rng.endswith('->map'):
+            continue
+        ev = st['var']
+        for e in walk_all_exprs(st['body']):
+            tgt = val = None
+            if e.get('k') == 'assign':
+                tgt, val = strip_casts(e['l']), e['r']
+            if tgt is None or not is_call(tgt, '::operator[]'):
+                continue
+            key = show(tgt['args'][0])
+            vtxt = show(val)
+            idx_ok = False
+            v = strip_casts(val)
+            if is_call(v, '::operator[]') and field_chain(v['obj'])[1][-1:] == ['data']:
+                idx = show(v['args'][0])
+                o = strip_casts(v['args'][0])
+                if o.get('k') == 'ref':
+                    gm = GenModel.__new__(GenModel)
+                    gm.facts, gm._defs, gm._cfg = vf, {}, {}
+                    idx = show(gm.origin(f, o))
+                idx_ok = 'data_start' in idx and (ev['name'] + '.first') in idx and '+' in idx
+            if key == ev['name'] + '.second' and idx_ok:
+                conds = enclosing_conditions(st['body'], None, target_expr=e)
+                if conds:
+                    why = 'the entry is reported only under the condition %s: some variables of the routine are missing from the view' % conds[0][0]
+                else:
+                    ok = True
+    R.check(ok, 'getActivationVariables', 'for every (register, name) of the stack map: view[name] = data[data_start + register], unconditionally', why,
+            'VM/src/vm.cpp:%d' % f['loc'][1])
